@@ -304,6 +304,84 @@ def run_bursts(run, rng, nnets, announce):
                         return
 
 
+def route(topo, src_net, dst_net):
+    """routers on the (unique, tree) path from src_net to dst_net: list of (router, arrival net)"""
+    prev = {src_net: None}
+    queue = [src_net]
+    while queue:
+        n = queue.pop(0)
+        for r in topo.routers:
+            if n in r["ports"]:
+                for m in r["ports"]:
+                    if m not in prev:
+                        prev[m] = (n, r)
+                        queue.append(m)
+    if dst_net not in prev:
+        return None
+    path = []
+    n = dst_net
+    while prev[n] is not None:
+        pn, r = prev[n]
+        path.append((r, pn))
+        n = pn
+    return list(reversed(path))
+
+
+def run_low_hop_counts(run, rng, topo, seq0):
+    """packets that arrive at the first router with a small hop count (written by hand: the library's stations start at 255):
+    one that arrives exhausted (0) goes nowhere; one with more hops left than routers on the path arrives, once, the count
+    lowered by one per router"""
+    st = topo.stations
+    names = sorted(k for k in st if "router" not in st[k])
+    seq = seq0
+    for _ in range(6):
+        src, tgt = rng.choice(names), rng.choice(names)
+        path = route(topo, st[src]["net"], st[tgt]["net"])
+        if not path or st[src]["net"] == st[tgt]["net"]:
+            continue
+        d = len(path)
+        first, _n = path[0]
+        for h in sorted({0, 1, d, d + 1, d + 2, 254}):
+            seq += 1
+            token = "H%05d" % seq
+            octets = W.npci_build({"dnet": st[tgt]["net"], "dadr": bytes([st[tgt]["mac"]]), "hop": h, "payload": b"\x10\x08" + token.encode("ascii")})
+            n_before = {n: len(lan.frames) for n, lan in topo.nets.items()}
+            l0 = len(topo.log)
+            try:
+                topo.nets[st[src]["net"]].inject(Address(st[src]["mac"]), Address(first["ports"][st[src]["net"]]), octets)
+                CLOCK.drive(duration=3.0, max_steps=300000)
+            except StepBudgetExceeded as err:
+                run.violation("forwarding-does-not-terminate", {"topology": topo.describe(), "error": str(err)})
+                return seq
+            except Exception as err:
+                run.violation("injected-packet-raised/" + type(err).__name__, {"topology": topo.describe(), "hop_count": h, "error": repr(err)[:100]})
+                return seq
+            got = [e["at"] for e in topo.log[l0:] if e["token"] == token]
+            elsewhere = [(n, W.npci_parse(rec["octets"])["hop"]) for n, lan in topo.nets.items() for rec in lan.frames[n_before[n]:]
+                         if token.encode("ascii") in rec["octets"] and str(rec["src"]) != str(st[src]["mac"])]
+            wit = {"topology": topo.describe(), "source": src, "target": tgt, "routers_on_path": d, "hop_count_on_arrival": h,
+                   "delivered_to": got, "forwarded_as_(network, hop count)": elsewhere[:6]}
+            run.case(("low-hop", seq, src, tgt, h, repr(sorted(topo.describe()["routers"]))), sample=None)
+            run.count("low_hop_count_packets")
+            sw = [r for r in CLOCK.swallowed.records if r["exc"]]
+            if h == 0 and (got or elsewhere):
+                run.violation("exhausted-packet-forwarded-or-delivered", wit)
+                return seq
+            if h >= d + 1 and got != [tgt]:
+                run.violation("packet-with-hops-to-spare-not-delivered-once" + ("/%s@%s" % (sw[-1]["exc"], (sw[-1]["origin"] or "?").split(":")[1]) if sw else ""), wit)
+                return seq
+            if set(got) - {tgt}:
+                run.violation("delivered-to-station-not-addressed/low-hop-count", wit)
+                return seq
+            for n, hop in elsewhere:
+                if hop is None and n == st[tgt]["net"]:
+                    continue            # last leg: the routing header is stripped
+                if hop is None or hop < 0 or hop >= h:
+                    run.violation("hop-count-not-lowered-on-forwarding", wit)
+                    return seq
+    return seq
+
+
 def run_topology(run, rng, nnets, announce, cold_only=False, router_apps=0.0):
     CLOCK.reset()
     topo = Topology(rng, nnets, announce=announce, router_apps=router_apps)
@@ -421,6 +499,8 @@ def run_topology(run, rng, nnets, announce, cold_only=False, router_apps=0.0):
                     break
         if cold_only:
             break
+    if rng.random() < 0.5:
+        run_low_hop_counts(run, rng, topo, seq)
     run.count("topologies")
 
 
